@@ -68,11 +68,103 @@ def f12(repo, res):
             res.add(Finding("F12", m.rel, q, c, f"handedness is compared with {lit_!r}, which the setter never admits ({sorted(members)})", c.lineno))
 
 
+def f14_f16(repo, res):
+    """F14 per-sensor bookkeeping in getBH_level2 is by position in the sensor list, never by the Sensor object: the same object may be
+        listed twice (`[s, s]`, a Collection plus one of its children); a dict / set keyed by the elements collapses the occurrences
+    F15 the pixel aggregator is applied once to a block of pixel values, not to its own result in a loop (a median of medians, std of
+        stds, ptp of ptps is not the reduction over all pixels)
+    F16 check_format_input_observers builds the sensor list in ONE pass over the input, so mixed lists keep their order"""
+    W = "magpylib._src.fields.field_wrap_BH"
+    fn = repo.func(W, "getBH_level2")
+    rel = "magpylib/_src/fields/field_wrap_BH.py"
+    svars = {t.elts[0].id for a_ in ast.walk(fn) if isinstance(a_, ast.Assign) and isinstance(a_.value, ast.Call)
+             and getattr(a_.value.func, "id", "") == "check_format_input_observers" for t in a_.targets
+             if isinstance(t, ast.Tuple) and t.elts and isinstance(t.elts[0], ast.Name)}
+    res.require(svars, "anchor vanished: sensors list returned by check_format_input_observers in getBH_level2")
+    bad = []
+    for n in ast.walk(fn):
+        if isinstance(n, ast.DictComp) or isinstance(n, ast.SetComp):
+            key = n.key if isinstance(n, ast.DictComp) else n.elt
+            for g in n.generators:
+                its = {x.id for x in ast.walk(g.iter) if isinstance(x, ast.Name)}
+                tg = {x.id for x in ast.walk(g.target) if isinstance(x, ast.Name)}
+                if its & svars and isinstance(key, ast.Name) and key.id in tg:
+                    # the key is the element drawn from the sensor list (not an index)
+                    elem_names = set()
+                    if isinstance(g.iter, ast.Name):
+                        elem_names = tg
+                    elif isinstance(g.iter, ast.Call) and getattr(g.iter.func, "id", "") in ("zip", "enumerate") and isinstance(g.target, ast.Tuple):
+                        args = g.iter.args
+                        off = 1 if g.iter.func.id == "enumerate" else 0
+                        for e, a in zip(g.target.elts[off:], args):
+                            if isinstance(a, ast.Name) and a.id in svars and isinstance(e, ast.Name):
+                                elem_names.add(e.id)
+                    if key.id in elem_names:
+                        bad.append(n)
+        if isinstance(n, ast.For):
+            its = {x.id for x in ast.walk(n.iter) if isinstance(x, ast.Name)}
+            if its & svars:
+                tg = n.target.elts[-1].id if isinstance(n.target, ast.Tuple) and isinstance(n.target.elts[-1], ast.Name) else (n.target.id if isinstance(n.target, ast.Name) else None)
+                for s_ in ast.walk(n):
+                    if isinstance(s_, ast.Assign):
+                        for t in s_.targets:
+                            if isinstance(t, ast.Subscript) and isinstance(t.slice, ast.Name) and t.slice.id == tg and isinstance(t.value, ast.Name):
+                                bad.append(s_)
+    res.ob("F14:per-sensor bookkeeping by index", not bad, {"rule": "F14", "sensor_list": sorted(svars), "keyed_by_object": [norm(b) for b in bad]})
+    for b in bad:
+        res.add(Finding("F14", rel, "getBH_level2", b, "per-sensor data is keyed by the Sensor object: a sensor listed twice among the observers has one entry only, so all but one "
+                        "of its occurrences are rotated / flipped with the wrong pixel slice or not at all", b.lineno))
+    # ---- F15
+    agg = None
+    for n in ast.walk(fn):
+        if isinstance(n, ast.Assign) and isinstance(n.value, ast.Call) and getattr(n.value.func, "id", "") == "check_format_pixel_agg" and isinstance(n.targets[0], ast.Name):
+            agg = n.targets[0].id
+    res.require(agg, "anchor vanished: pixel_agg resolver call in getBH_level2")
+    nested = []
+    for loop in ast.walk(fn):
+        if isinstance(loop, (ast.For, ast.While)):
+            for s_ in ast.walk(loop):
+                if isinstance(s_, ast.Assign) and isinstance(s_.value, ast.Call) and getattr(s_.value.func, "id", "") == agg and s_.value.args \
+                        and isinstance(s_.value.args[0], ast.Name) and any(isinstance(t, ast.Name) and t.id == s_.value.args[0].id for t in s_.targets):
+                    nested.append(s_)
+    res.ob("F15:aggregator not applied to its own result", not nested, {"rule": "F15", "aggregator": agg, "iterated_applications": [norm(x) for x in nested]})
+    for x in nested:
+        res.add(Finding("F15", rel, "getBH_level2", x, "the pixel aggregator is applied repeatedly to its own result (one pixel axis at a time): for median/std/var/ptp the "
+                        "reduction of reductions is not the reduction over all pixels of the sensor", x.lineno))
+    # ---- F16
+    cf = repo.func("magpylib._src.input_checks", "check_format_input_observers")
+    p = cf.args.args[0].arg
+    rets = [r for r in ast.walk(cf) if isinstance(r, ast.Return) and isinstance(r.value, ast.Tuple) and r.value.elts and isinstance(r.value.elts[0], ast.Name)]
+    names = {r.value.elts[0].id for r in rets}
+    passes = []
+    for n in ast.walk(cf):
+        if isinstance(n, (ast.For, ast.comprehension)) and isinstance(n.iter, ast.Name) and n.iter.id == p:
+            body = n if isinstance(n, ast.For) else None
+            contributes = False
+            if body is not None:
+                contributes = any(isinstance(c, ast.Call) and getattr(c.func, "attr", "") in ("append", "extend") and isinstance(c.func.value, ast.Name)
+                                  and c.func.value.id in names for c in ast.walk(body))
+            else:
+                contributes = True     # a comprehension over the input that feeds the result is a pass of its own
+            if contributes:
+                passes.append(n)
+    # comprehensions only count when their value reaches the returned list
+    passes = [x for x in passes if isinstance(x, ast.For) or any(
+        isinstance(a_, ast.Assign) and any(x is g for c in ast.walk(a_.value) if isinstance(c, (ast.ListComp, ast.GeneratorExp)) for g in c.generators) for a_ in ast.walk(cf))]
+    ok = len(passes) <= 1
+    res.ob("F16:observers gathered in one pass", ok, {"rule": "F16", "passes_over_the_input": len(passes)})
+    if not ok:
+        res.add(Finding("F16", "magpylib/_src/input_checks.py", "check_format_input_observers", passes[1] if isinstance(passes[1], ast.For) else cf,
+                        f"the observer list is assembled in {len(passes)} passes over the input: entries of one kind are moved in front of the others, so the sensor "
+                        "axis of the result no longer follows the order of a mixed [position, Sensor, Collection] list", getattr(passes[1], "lineno", cf.lineno)))
+
+
 def run(repo, res, tier):
-    res.rules = ["F3 pixel placement / back-rotation typing", "F4 handedness flips component 0 only", "F5 path predicates quantify over the path", "F6 flip before aggregation", "F7 flip reached for every sensor", "F8 aggregation unconditional", "F9 constant path index only under a staticness guard", "F11 aggregator lookup by the given name", "F12 handedness domain", "F13 observer collections flattened in sensors_all order"]
+    res.rules = ["F3 pixel placement / back-rotation typing", "F4 handedness flips component 0 only", "F5 path predicates quantify over the path", "F6 flip before aggregation", "F7 flip reached for every sensor", "F8 aggregation unconditional", "F9 constant path index only under a staticness guard", "F11 aggregator lookup by the given name", "F12 handedness domain", "F13 observer collections flattened in sensors_all order", "F14 per-sensor bookkeeping by index", "F15 aggregator applied once", "F16 observers gathered in one pass"]
     extra = frame_rules.c04(repo, res)
     f11(repo, res)
     f12(repo, res)
+    f14_f16(repo, res)
     from props import c11
     c11.typed_view_flatten(repo, res, "F13")      # observer collections are flattened in sensors_all order (rows of the result)
     res.assumptions += ["declared types: sens.pixel : Vec[sens], sens._orientation : Rot[sens->G], sens._position : Pt[G]; getBH_level1(...) : Vec[G]"]
